@@ -135,6 +135,7 @@ type IdP struct {
 	IDTokenSpec    func(a *AuthRequest, u *User, refresh bool) *TokenSpec
 	NoRefreshToken bool
 	NoIDTokenOnRefresh bool
+	StaticRefreshToken bool // refresh grants do not rotate the refresh token (one saved browser state can be refreshed repeatedly)
 	RefreshFails   bool
 	TokenPadding   int // extra bytes in access tokens minted on refresh (growing sessions)
 	AccessTTL      time.Duration
@@ -480,11 +481,15 @@ func (p *IdP) issue(req *http.Request, a *AuthRequest, u *User, f *family) *http
 			f = &family{id: len(p.famList), user: u, nonce: nonce}
 			p.famList = append(p.famList, f)
 		}
-		f.gen++
-		rt := fmt.Sprintf("rt-%d-%d", f.id, f.gen)
-		f.current = rt
-		p.families[rt] = f
-		out["refresh_token"] = rt
+		if refresh && p.StaticRefreshToken && f.current != "" {
+			out["refresh_token"] = f.current
+		} else {
+			f.gen++
+			rt := fmt.Sprintf("rt-%d-%d", f.id, f.gen)
+			f.current = rt
+			p.families[rt] = f
+			out["refresh_token"] = rt
+		}
 	}
 	if !(refresh && p.NoIDTokenOnRefresh) {
 		spec := &TokenSpec{}
